@@ -702,6 +702,16 @@ def sf_canon_quad(ex, node, st):
     return VBool(r)
 
 
+def sf_origin(ex, node, st):
+    """origin(sorted_list, j): GHOST position, in the iterable that was sorted, of the j-th element of the result of sorted()."""
+    lst = ex.eval(node.args[0], st)
+    j = ex.eval(node.args[1], st)
+    pi = getattr(lst, "origin", None)
+    if pi is None:
+        raise Unsupported("origin() of a list that is not the result of sorted()")
+    return VInt(pi[j.z])
+
+
 def sf_matches(ex, node, st):
     """matches(PATTERN, text): text is in L(PATTERN°) - the language of the real pattern constant, look-arounds erased."""
     from . import regex2smt as R2
@@ -778,6 +788,7 @@ SPEC_FORMS = {
     "hi": sf_hi,
     "alloc": sf_alloc,
     "matches": sf_matches,
+    "origin": sf_origin,
     "canon_quad": sf_canon_quad,
     "latin1_upper": sf_latin1_upper,
     "latin1_lower": sf_latin1_lower,
